@@ -305,6 +305,54 @@ func c18Deep(c *Ctx, idx int) {
 	}
 }
 
+// big-shared: e1 passes a large array of the document through by reference while also searching it;
+// e2 searches it again (membership, equality filters, sorting) with needles that are equal in value
+// but not in spelling or sign: what one evaluation remembers about an array must not make the piped
+// form differ from the two-step form.
+func c18BigShared(c *Ctx, idx int) {
+	r := c.Rand("")
+	n := 32 + r.Intn(40)
+	if idx%4 == 0 {
+		n = 8 + r.Intn(20)
+	}
+	xs := make([]any, n)
+	for i := range xs {
+		xs[i] = json.Number(gen.Pick(r, []string{"1", "2", "3", "-7", "-7.00", "40", "1.0", "1e0", "100", "0.5", "5e-1", "12", "9007199254740993", "-1", "2.50"}))
+	}
+	for _, z := range []string{"0", "-0", "0.0", "-0.0", "0e3"} {
+		if r.Chance(40) {
+			xs[r.Intn(n)] = json.Number(z)
+		}
+	}
+	strs := make([]any, n)
+	for i := range strs {
+		strs[i] = gen.Pick(r, gen.StrPool)
+	}
+	doc := map[string]any{"xs": xs, "strs": strs, "refund": json.Number("0"), "rate": json.Number("-1")}
+	needles := []string{"`-0`", "`0`", "`0.0`", "`-7.00`", "`-7`", "`1.0`", "`1`", "`5e-1`", "`2.5`", "refund * rate", "`0` * `-1`", "'a'", "''"}
+	x, y := gen.Pick(r, needles), gen.Pick(r, needles)
+	if strings.Contains(y, "refund") {
+		y = "`-0`" // e2 must not mention members that e1 does not pass on
+	}
+	e1s := []string{"{f: contains(xs, " + x + "), xs: xs, strs: strs}", "{xs: xs, n: length(xs[?@ == " + x + "]), strs: strs}", "{xs: xs, strs: strs}", "{xs: xs[*], strs: strs, g: contains(strs, " + x + ")}", "{xs: xs, f: contains(xs, " + x + "), g: contains(xs, " + y + "), strs: strs}"}
+	e2s := []string{"contains(xs, " + y + ")", "[contains(xs, " + y + "), contains(xs, `0`), contains(xs, `-0`)]", "length(xs[?@ == " + y + "])", "contains(strs, " + y + ")", "xs[?@ == `0`] | length(@)", "sort(xs)[0]", "contains(xs, xs[0]) && contains(xs, " + y + ")"}
+	e1 := gen.Pick(r, e1s)
+	l1 := c.LibSearch(e1, doc)
+	if l1.Err != nil || l1.Panic != nil {
+		return
+	}
+	for _, e2 := range e2s {
+		for _, piped := range []string{e1 + " | " + e2, "(" + e1 + ") | (" + e2 + ")"} {
+			want := c.LibSearch(piped, doc)
+			got := c.LibSearch(e2, l1.Res)
+			if !SameOutcome(want, got, false) {
+				c.Report(Violation{Rule: "C18/requery", Expr: piped, Data: clipS(gen.Describe(doc), 600), Got: ShowOut(got) + "  (Search(" + e2 + ", r1))", Want: ShowOut(want)})
+			}
+		}
+	}
+	c.Nontrivial(e1, fmt.Sprint(n), x, y)
+}
+
 // extremes: arithmetic near the ends of each numeric representation must give
 // an error or a finite number, never an infinity/NaN value
 func c18Extremes(c *Ctx, idx int) {
@@ -341,11 +389,12 @@ func c18Extremes(c *Ctx, idx int) {
 func init() {
 	Register(&Property{
 		ID:            "C18",
-		Rule:          "seeded (e1, document) pairs with e1 weighted towards functions and operators that construct values (length, find_*, arithmetic, keys, items, zip, group_by, split, to_array, map, sum, avg, literals): the result r1 is walked (only nil/bool/string/[]any/map[string]any/supported numeric kinds, no typed nils, no non-finite numbers), serialised with encoding/json and decoded again (structural view and JSON view must agree), and then re-queried with 6 of 59 inspecting expressions e2 (types, equality, sorting, indexing, arithmetic, string functions; none mentions $ or outer variables): Search(e2, r1) and Search(e2, JSON round trip of r1) must equal Search(\"(e1) | e2\", document); extremes stream: 23 arithmetic forms over operands near the ends of float64, float32, decimal128 and json.Number must return an error or finite, serialisable numbers; non-trivial = at least one e2 yields a non-null value; distinct by (e1, document); literal-results stream: JSON literals in random legal layouts (white space inside the backticks, escapes, exponent spellings) alone and inside multi-selects / pipes / function calls: the result passes the domain walk, serialises, and re-queries like its JSON round trip; deep stream: documents nested 10 .. 49990 levels deep (arrays, objects, alternating), with e1 adding levels: the result re-queries like the piped form",
+		Rule:          "seeded (e1, document) pairs with e1 weighted towards functions and operators that construct values (length, find_*, arithmetic, keys, items, zip, group_by, split, to_array, map, sum, avg, literals): the result r1 is walked (only nil/bool/string/[]any/map[string]any/supported numeric kinds, no typed nils, no non-finite numbers), serialised with encoding/json and decoded again (structural view and JSON view must agree), and then re-queried with 6 of 59 inspecting expressions e2 (types, equality, sorting, indexing, arithmetic, string functions; none mentions $ or outer variables): Search(e2, r1) and Search(e2, JSON round trip of r1) must equal Search(\"(e1) | e2\", document); extremes stream: 23 arithmetic forms over operands near the ends of float64, float32, decimal128 and json.Number must return an error or finite, serialisable numbers; non-trivial = at least one e2 yields a non-null value; distinct by (e1, document); literal-results stream: JSON literals in random legal layouts (white space inside the backticks, escapes, exponent spellings) alone and inside multi-selects / pipes / function calls: the result passes the domain walk, serialises, and re-queries like its JSON round trip; deep stream: documents nested 10 .. 49990 levels deep (arrays, objects, alternating), with e1 adding levels: the result re-queries like the piped form; big-shared stream: e1 hands on arrays of 32-70 elements while searching them, e2 searches them again with needles equal in value but not in spelling or sign (zeros of both signs)",
 		MinNontrivial: 2000,
 		Streams: []Stream{
 			{Name: "requery", N: func(c *Ctx) int { return tierN(c, 20000, 3000000) }, Run: c18Run},
 			{Name: "extremes", N: func(c *Ctx) int { return tierN(c, 3000, 60000) }, Run: c18Extremes},
+			{Name: "big-shared", N: func(c *Ctx) int { return tierN(c, 4000, 200000) }, Run: c18BigShared},
 			{Name: "deep", N: c18DeepN, Run: c18Deep, Exhaustive: true},
 			{Name: "literal-results", N: func(c *Ctx) int { return tierN(c, 4000, 200000) }, Run: c18Literals},
 			{Name: "null-elements", N: func(c *Ctx) int { return tierN(c, 3000, 60000) }, Run: c18Nulls},
